@@ -113,6 +113,40 @@ theorem encrypt_loop_never_panics_real (cph : Nat) (fk np : Bytes) (r : Reader) 
     (fun d i l _ _ => encryptSegO_eq Real.realCrypto EncParams.generated Gen.nonceLength cph _ np
       (fun i l => Real.nonceFor_generated_length np i l) (Real.realCrypto_lawful fk np) d i l) r
 
+/-! ### termination (the hang side): the loops end by their own exit conditions -/
+
+/-- `for n < segmentSize+1 && err == nil`: ends with the buffer full or with the source's terminal
+    condition, within `r.measure + 1` reads (the script is finite: every read consumes a cap, a byte,
+    or delivers the terminal) — the model's fuel never runs out. -/
+theorem fill_terminates (r : Reader) (limit : Nat) (buf : Bytes) (hb : buf.length ≤ limit) :
+    (fill (r.measure + 1) r limit buf).2.1 ≠ .none ∨ (fill (r.measure + 1) r limit buf).1.length = limit :=
+  fill_exits (r.measure + 1) r limit buf (by omega) hb
+
+/-- `for !done`: `processSegments` ends with a proper terminal (never the model's `fuel` marker) for
+    every reader script and every segment size `> 0`: each iteration consumes `segSize` bytes of the
+    finite stream. -/
+theorem processSegments_terminates (segSize maxSeg : Nat) (hs : 0 < segSize) (fn : ProcFn)
+    (hfn : ∀ d i l, fn d i l ≠ .error .fuel) (r : Reader) :
+    (processSegments segSize maxSeg fn r).term ≠ .err .fuel := by
+  rw [processSegments_spec segSize maxSeg fn hs r]
+  apply runSegs_term_ne_fuel maxSeg fn hfn
+  unfold finOf; split <;> simp
+
+/-- `for newlines < 3 && err == nil`: `readHeader` ends by its own conditions (three newlines, buffer
+    full, or the source's terminal condition) for every source script. -/
+theorem readHeader_terminates (P : EncParams) (r : Reader) : readHeader P r ≠ .error .fuel := by
+  unfold readHeader readHeaderWith
+  have h := hdrLoop_ne_fuel P.scheme P.hdrMax (r.measure + 1) r 0 {} (by omega) (by omega)
+  cases hl : hdrLoop P.scheme P.hdrMax (r.measure + 1) r 0 {} with
+  | error e =>
+    simp only []
+    intro he; cases he; exact h hl
+  | ok x =>
+    obtain ⟨st, res, r'⟩ := x
+    simp only []
+    repeat' split
+    all_goals simp
+
 /-- Non-vacuity / witness that the checks bite: with a buffer one byte too small the instrumented
     loop does report a panic. -/
 example : processSegmentsO 2 2 10 (fun d _ _ => some (.ok d)) ⟨[], [1, 2, 3], [], false, .eof⟩ = none := by decide
